@@ -338,3 +338,18 @@ func (v *View) PodActs() []podAct {
 	}
 	return out
 }
+
+// APIFailure: something outside the controller went wrong during this reconcile - an API call failed or was
+// faulted, an injected cache lookup failed, or the process "died". A reconcile that returns an error although
+// none of this happened gave up by itself.
+func (v *View) APIFailure() bool {
+	if v.Rec.Crashed || v.Rec.Panic != nil || v.Rec.LookupFailed {
+		return true
+	}
+	for _, a := range v.Rec.Actions {
+		if a.Faulted || a.Err != nil {
+			return true
+		}
+	}
+	return false
+}
